@@ -6,8 +6,9 @@ from . import common
 from .cli import canon, run as run_cli
 from .common import tlc, log, workdir, ToolError
 
-G1 = ('2020-06-01 BUY AAA 10 @ 5\n2020-07-01 SELL AAA 4 @ 8 FEES 1\n2020-07-15 BUY AAA 2 @ 6\n'
-      '2021-06-10 DIVIDEND AAA TOTAL 3 TAX 1\n2021-09-01 SELL AAA 3 @ 4\n2021-09-01 BUY BBB 5 @ 2.125\n2021-10-05 SELL BBB 5 @ 2.25\n')
+# quantities with three and four decimals: every front-end shows quantities exactly (C17)
+G1 = ('2020-06-01 BUY AAA 10.5 @ 5\n2020-07-01 SELL AAA 4.375 @ 8 FEES 1\n2020-07-15 BUY AAA 2.125 @ 6\n'
+      '2021-06-10 DIVIDEND AAA TOTAL 3 TAX 1\n2021-09-01 SELL AAA 3.3333 @ 4\n2021-09-01 BUY BBB 5 @ 2.125\n2021-10-05 SELL BBB 5 @ 2.25\n')
 UNCOVERED = '2020-06-01 BUY AAA 10 @ 5\n2020-07-01 SELL AAA 40 @ 8\n'
 NOEXEMPT = '2030-06-01 BUY AAA 10 @ 5\n2030-07-01 SELL AAA 4 @ 8\n'
 OVERFLOW = '2020-06-01 BUY AAA 1 @ 79228162514264337593543950335 FEES 1\n'
